@@ -109,8 +109,13 @@ def reparse_create(b: bytes, fmt: str, hierarchy: bool, d: str):
     """`parse` to a text file, then `create` from it, through the SuitEnvelope front end (what the CLI calls)"""
     from suit_generator.envelope import SuitEnvelope
 
+    # file names as they occur: the format is named explicitly, or taken from the (last) suffix - whatever other dots and suffixes the name holds
+    import zlib
+    pick = zlib.crc32(b[:64] + fmt.encode()) % 5
+    other = "json" if fmt == "yaml" else "yaml"
+    stem, auto = [("parsed", False), ("parsed", True), ("app.suit", True), ("app.v1.2", True), ("x." + other, True)][pick]
     src = os.path.join(d, "in.suit")
-    txt = os.path.join(d, "parsed." + fmt)
+    txt = os.path.join(d, stem + "." + fmt)
     out = os.path.join(d, "again.suit")
     with open(src, "wb") as fh:
         fh.write(b)
@@ -118,11 +123,11 @@ def reparse_create(b: bytes, fmt: str, hierarchy: bool, d: str):
     os.chdir(d)
     try:
         e = SuitEnvelope()
-        e.load(src, "suit")
-        e.dump(txt, fmt, hierarchy)
+        e.load(src, "AUTO" if auto else "suit")
+        e.dump(txt, "AUTO" if auto else fmt, hierarchy)
         e2 = SuitEnvelope()
-        e2.load(txt, fmt)
-        e2.dump(out, "suit")
+        e2.load(txt, "AUTO" if auto else fmt)
+        e2.dump(out, "AUTO" if auto else "suit")
         with open(out, "rb") as fh:
             return {"ok": fh.read()}
     except BaseException as ex:  # noqa
